@@ -154,7 +154,9 @@ def inject(rng, lines):
     # computes nothing)
     for i in rng.sample(sites, min(2, len(sites))):
         form = rng.choice(["li zero, 7", "addi x0, x0, 4", "xori x0, x0, -1", "slti zero, zero, 1", "lui x0, 5",
-                           "add x0, x0, x0", "sub zero, zero, zero", "ori zero, x0, 1", "mv zero, zero", "neg x0, x0"])
+                           "add x0, x0, x0", "sub zero, zero, zero", "ori zero, x0, 1", "neg x0, x0"])
+        # (`mv zero, zero` is `addi x0, x0, 0`, the nop in another spelling: since repair 8cf7cf2 it is not reported,
+        # and by C13 it must be treated like `nop`)
         new = ins(i + 1, form)
         out.append(("write-to-zero", new, ("save-to-zero", {i + 1}, form.split()[1].rstrip(","))))
     # 8: stack access at or above the entry stack pointer
